@@ -15,7 +15,7 @@
      zero vector alone);
    * a FlexPath element's half_width_and_offset array has one entry per spine point (class
      invariant of FlexPath; the C++ loops run `spine.point_array.count` times over it). *)
-From Coq Require Import QArith Qabs List Bool ZArith.
+From Coq Require Import QArith Qabs Qround List Bool ZArith.
 Import ListNotations.
 Open Scope Q_scope.
 
@@ -478,3 +478,8 @@ Definition repred (r : repetition) : repetition :=
   | RExplicitX l => RExplicitX (map Qred l)
   | RExplicitY l => RExplicitY (map Qred l)
   end.
+
+(* ------------------------------------------------------------------ observation grid *)
+(* results are compared after rounding to multiples of 2^-24 (sin/cos of doubles are inexact):
+   nearest integer to q * 2^24 *)
+Definition grid (q : Q) : Z := Qfloor (q * 16777216 + (1#2)).
